@@ -8,7 +8,7 @@ class FilteredConfigParser(ObjectProxy):
   filters out entries for particular, unwanted species"""
 
 
-  def __init__(self, config_parser, exclude = [], include = []):
+  def __init__(self, config_parser, exclude = None, include = None):
     """Wrap existing ConfigParser so that it excludes entries
     for unwanted species.
 
@@ -27,10 +27,13 @@ class FilteredConfigParser(ObjectProxy):
     # Note: the '_self_' prefix makes ObjectProxy store these attributes on the proxy itself
     # rather than on the wrapped ConfigParser (where they would be shared by every
     # FilteredConfigParser wrapping the same parser).
-    if exclude:
+    # An empty exclude list is a valid filter (nothing is removed), it is not the same as exclude not being given.
+    if not exclude is None:
       self._self_species_list = exclude
       self._self_exclude_flag = True
     else:
+      if include is None:
+        include = []
       self._self_species_list = include
       self._self_exclude_flag = False
     
